@@ -457,8 +457,8 @@ def main(argv=None):
         total = sum(1 for it in items if {"escape": 0, "render": 1, "wrap": 2}[it["kind"]] == si)
         rep.add_results(nm, mine, total - len(mine), exhaustive=(si == 2 and not q))
     import superrec2.utils.tex as X, superrec2.utils.text as W, superrec2.model.synteny as Y, superrec2.render.tikz as T, superrec2.render.layout as L
-    rep.functions = R.source_digest(X.escape, W.balanced_wrap, W._wrap_badness, Y.format_synteny, Y.sort_synteny, T.render, T._tikz_draw_branches,
-                                    T._tikz_draw_fork, T.get_tikz_definitions, L._compute_branches, L._add_losses)
+    rep.functions = R.safe_digest(lambda: R.source_digest(X.escape, W.balanced_wrap, W._wrap_badness, Y.format_synteny, Y.sort_synteny, T.render, T._tikz_draw_branches,
+                                    T._tikz_draw_fork, T.get_tikz_definitions, L._compute_branches, L._add_losses))
     rep.bounds = {"escape": f"every string with len <= {4 if q else 5} (CrossHair, symbolic str)",
                   "render": f"{nin} seeded inputs with 2-{5 if q else 6} object leaves, names over letters/digits/underscore/backslash, colours on ~35% of the object nodes "
                             "(nested), up to 3 (thorough: 8) valid reconciliations each, ordered and unordered labellings; node sizes symbolic per kind; both orientations",
